@@ -145,7 +145,7 @@ def iterable_params(ctx) -> List[Tuple[Unit, str, str]]:
     for u in real_units(ctx):
         if u.kind not in ("coroutine", "asyncgen"):
             continue
-        if u.short in NON_OWNING:
+        if ctx.pkg.canonical(u) in NON_OWNING:
             continue
         for p in u.params():
             roles = roles_of_annotation(p.annotation)
